@@ -38,6 +38,8 @@ ASSUMPTIONS = ['same Verilog engine assumptions as C01',
                'answer; if text is returned it must behave like the Python (floats only flow into comparisons)']
 BOUNDS = {'quick': 'library blocks + depth-1 expressions in 6 templates + 39 statement-structure programs (incl. ternaries as operands) + 42 must-refuse probes at one width combination; state cap 400 per program',
           'thorough': 'adds depth-2 expressions (every operator pair in both nesting positions) and 4 width combinations; state cap 2000'}
+for k in ('quick', 'thorough'):
+    BOUNDS[k] += '; also tuple assignments, capture patterns, two instances of one class with different constructor constants, string / None state (refused or equivalent)'
 CHUNK = 30
 
 
